@@ -36,6 +36,12 @@ CLAIMED = {
          'strlen of the buffer only after a bounded snprintf with datasize >= 1; every query command id explored by partial evaluation writes no handle state except the error field; '
          'no path falls off without a return value. Decided for datasize >= 0 as the property states.',
          'guarded-access analysis: demand-driven interval + symbolic (linear / division-form) bounds over clang CFG, interprocedural with entry facts; partial evaluation for purity'),
+ 'C09': ('DESIGN.md §4 C09',
+         'Every public entry point validates the handle (NULL + magic) before use and clears the error (error queries must not); every rejecting early return records or returns a '
+         'non-zero SFE_* code and has no other side effect; the sixteen typed read/write wrappers agree family-wise on their ordered guard lists, error codes, return values and '
+         'position updates and match the frozen contract; the error table is total, unique and non-empty; failing opens pass psf_close and set sf_errno. '
+         'Histories of interleaved calls and file-content preservation are not decided.',
+         'sibling fact-sheet cross-check (normalised AST facts), table extraction, must-pass path rules over clang CFG'),
 }
 REASONS = {}
 DEFAULT_REASON = 'check not built yet (work in progress); see DESIGN.md'
